@@ -22,7 +22,10 @@ RULE = ("kind=matrix (exhaustive): every state x every operation (8 state method
         "zero-time yields) while a slow operation holds the transfer's lock (a transfer task that needs several loop "
         "steps to honour its cancellation, thread-pool latency on exists/remove). kind=live: two real clients "
         "transferring over the simulated net while user calls (abort/pause/queue, 1-3 together) land at seeded "
-        "instants. Monitors: M1 a state listener registered first on every Transfer (edge in the pinned graph, "
+        "instants. kind=peer-matrix: every transfer-related peer message (queue failed, upload failed, transfer "
+        "request, transfer queue, place in queue) through the real manager handlers for a transfer in every state "
+        "with the tasks the manager would have attached: when every state operation a handler issued was refused, "
+        "fields, file and tasks must be unchanged between its entry and return. Monitors: M1 a state listener registered first on every Transfer (edge in the pinned graph, "
         "continuity), M2 observation inside the transfer's own lock (state at lock time vs state dispatched on, "
         "result, snapshot of file / reasons / timestamps / tasks before and after), M3 the public manager calls "
         "(raise iff refused). Non-trivial = at least one operation was observed inside the lock; distinct = (kind, "
